@@ -62,6 +62,10 @@ pub fn tainted_ctx() -> Vec<(String, Val)> {
         ),
         ("x".into(), s(TAINTS[2])),
         ("y".into(), s(TAINTS[1])),
+        // byte strings: valid UTF-8, and not (those print lossily but are data like any other)
+        ("bx".into(), Val::Bytes(b"\xff<u9>\"'&\xfe".to_vec())),
+        ("by".into(), Val::Bytes(b"<u8>\"'&".to_vec())),
+        ("lb".into(), Val::List(vec![Val::Bytes(b"\xc3<u7>'".to_vec()), Val::Bytes(b"<i>".to_vec())])),
     ]
 }
 
@@ -178,7 +182,7 @@ pub struct Soundness;
 fn flow_source() -> BoxedStrategy<String> {
     fn sv(d: u32) -> BoxedStrategy<String> {
         let base = prop_oneof![
-            5 => crate::runner::one_of(&["s", "x", "y", "ls[0]", "ls[2]", "m.k", "m.id", "ll[0][0]", "m.a[0]"]).prop_map(|s| s.to_string()),
+            5 => crate::runner::one_of(&["s", "x", "y", "ls[0]", "ls[2]", "m.k", "m.id", "ll[0][0]", "m.a[0]", "bx", "by", "lb[0]", "lb[1]"]).prop_map(|s| s.to_string()),
             3 => (0..TAINTS.len()).prop_map(|i| print::str_lit(TAINTS[i])),
             3 => crate::runner::one_of(&["cap", "res", "caller()", "arg", "it"]).prop_map(|s| s.to_string()),
             1 => crate::runner::one_of(&["i", "f", "'plain'", "n"]).prop_map(|s| s.to_string()),
@@ -236,7 +240,7 @@ fn flow_source() -> BoxedStrategy<String> {
         .boxed()
     }
     fn lv(d: u32) -> BoxedStrategy<String> {
-        let base = crate::runner::one_of(&["ls", "ll[0]", "m.a", "[s, x]", "[cap, s]", "[res, arg]", "m|list", "m|items|list", "m.values()|list", "s|list", "(s, cap)"])
+        let base = crate::runner::one_of(&["ls", "ll[0]", "m.a", "[s, x]", "[cap, s]", "[res, arg]", "m|list", "m|items|list", "m.values()|list", "s|list", "(s, cap)", "lb", "[bx, s]"])
             .prop_map(|s| s.to_string());
         if d == 0 {
             return base.boxed();
